@@ -134,7 +134,7 @@ class World:
         if self.problem is None:
             self.problem = (what, detail)
 
-    def do_convert(self, i, oi, tag='convert'):
+    def do_convert(self, i, oi, tag='convert', spelling='abs'):
         if tag == 'default-output':
             # no -o: the output goes next to the input, suffix .t4
             out = str(pathlib.Path(self.paths[i]).with_suffix('.t4'))
@@ -144,9 +144,23 @@ class World:
         if os.path.exists(out) and os.path.abspath(out) not in (
                 os.path.abspath(p_) for p_ in self.paths):
             os.remove(out)
-        res = conv.convert_path(self.paths[i], out, self.argv(i, oi),
-                                default_output=(tag == 'default-output'))
-        self.steps.append((tag, i, oi))
+        ipath = self.paths[i]
+        cwd = os.getcwd()
+        if spelling != 'abs':
+            # the same file named relative to the working directory
+            os.chdir(self.dir)
+            ipath = os.path.basename(ipath)
+            if spelling == 'dot':
+                ipath = './' + ipath
+            elif spelling == 'dotdot':
+                ipath = os.path.join('..', os.path.basename(self.dir), ipath)
+        try:
+            res = conv.convert_path(ipath, out, self.argv(i, oi),
+                                    default_output=(tag == 'default-output'))
+        finally:
+            os.chdir(cwd)
+        self.steps.append((tag, i, oi) if spelling == 'abs'
+                          else (tag, i, oi, spelling))
         got = res.t4_text if res.ok else 'FAILED: ' + str(res.exc_msg)
         if tag == 'default-output' and got.startswith('FAILED') and \
                 'input file itself' in got:
@@ -375,10 +389,11 @@ def make_machine(tier, sink):
             self.world.do_convert(i, oi)
             self.pairs.append((i, oi))
 
-        @rule(i=st.integers(0, 9), oi=st.integers(0, len(OPTION_SETS) - 1))
-        def convert_default_output(self, i, oi):
+        @rule(i=st.integers(0, 9), oi=st.integers(0, len(OPTION_SETS) - 1),
+              spelling=st.sampled_from(['abs', 'rel', 'dot', 'dotdot']))
+        def convert_default_output(self, i, oi, spelling):
             i %= len(self.world.decks)
-            self.world.do_convert(i, oi, 'default-output')
+            self.world.do_convert(i, oi, 'default-output', spelling)
             self.pairs.append((i, oi))
 
         @rule(i=st.integers(0, 4), after=st.booleans())
@@ -483,7 +498,8 @@ def check(case):
     try:
         for s in case['steps']:
             if s[0] in ('convert', 'reconvert', 'default-output'):
-                world.do_convert(s[1], s[2], s[0])
+                world.do_convert(s[1], s[2], s[0],
+                                 s[3] if len(s) > 3 else 'abs')
             elif s[0] == 'failing':
                 world.do_failing(s[1])
             elif s[0] == 'hashseed':
